@@ -35,14 +35,14 @@ Example w_offer_codes :
   option_map snd (step (wc Mem false false) init (LOffer 0 0)) = Some c_zero.
 Proof. vm_compute. repeat split; reflexivity. Qed.
 
-(* no_lost_wakeup_partial: a quiescent, S1-free, lock-free reachable state with producers that were blocked,
+(* no_lost_wakeup / no_stuck_at_quiescence: a quiescent reachable state with producers that were blocked,
    cancelled and released exists (hypotheses satisfiable) *)
 Definition q_trace : list label :=
   [LOffer 0 4; LOffer 1 2; LOffer 2 2; LCancel 2; LSelCtx 2; LRelockCtx 2; LRead; LDone 0 0; LSelTok 1;
    LRelockTok 1; LRead; LDone 1 0].
 Example q_quiescent :
   let c := wc Pers true false in let s := final c q_trace in
-  reachable c s /\ quiescent c s /\ lock s = Free /\ hand s = [0; 1]%nat /\
+  reachable c s /\ quiescent c s /\ sigs s = 0 /\ hand s = [0; 1]%nat /\
   pget 1%nat (prods s) = Some (PRet ROk) /\ pget 2%nat (prods s) = Some (PRet RCtx).
 Proof.
   split; [|split].
@@ -73,24 +73,42 @@ Example w_pool_abandoned :
   pget 0%nat (prods s) = Some (PRet RCtx) /\ results s = [(0%nat, 0)].
 Proof. vm_compute. repeat split; reflexivity. Qed.
 
-(* cond.Broadcast with three counted waiters: blocked after the first send, resumed by each receive *)
+(* cond.Broadcast with three counted waiters: all three become pending signals at once, the bell is rung once and
+   every woken waiter that leaves signals pending rings it again for the next; a waiter that finds signals = 0 on a
+   stale bell goes back to the select (c_blocked) *)
 Definition b_trace : list label :=
-  [LOffer 0 4; LOffer 1 1; LOffer 2 2; LOffer 3 4; LBroadcast; LSelTok 1; LSelTok 2; LSelTok 3].
+  [LOffer 0 4; LOffer 1 1; LOffer 2 2; LOffer 3 4; LBroadcast; LSelTok 1; LRelockTok 1; LSelTok 2; LRelockTok 2;
+   LSelTok 3; LRelockTok 3].
 Example w_broadcast :
   let c := wc Mem true false in
-  option_map snd (step c (final c [LOffer 0 4; LOffer 1 1; LOffer 2 2; LOffer 3 4]) LBroadcast) = Some c_sigblocked /\
-  lock (final c [LOffer 0 4; LOffer 1 1; LOffer 2 2; LOffer 3 4; LBroadcast]) = BBcast /\
-  lock (final c [LOffer 0 4; LOffer 1 1; LOffer 2 2; LOffer 3 4; LBroadcast; LSelTok 1]) = BBcast /\
+  option_map snd (step c (final c [LOffer 0 4; LOffer 1 1; LOffer 2 2; LOffer 3 4]) LBroadcast) = Some 0 /\
+  sigs (final c [LOffer 0 4; LOffer 1 1; LOffer 2 2; LOffer 3 4; LBroadcast]) = 3 /\
+  waiting (final c [LOffer 0 4; LOffer 1 1; LOffer 2 2; LOffer 3 4; LBroadcast]) = 0 /\
+  tok (final c [LOffer 0 4; LOffer 1 1; LOffer 2 2; LOffer 3 4; LBroadcast]) = true /\
+  (let s := final c [LOffer 0 4; LOffer 1 1; LOffer 2 2; LOffer 3 4; LBroadcast; LSelTok 1; LRelockTok 1] in
+   sigs s = 2 /\ tok s = true /\ waiting s = 1 /\ pget 1%nat (prods s) = Some (PInSelect 1)) /\
   let s := final c b_trace in
-  reachable_api c s /\ lock s = Free /\ tok s = false /\ waiting s = 0 /\ cnt is_lefttok (prods s) = 3.
+  reachable_api c s /\ tok s = false /\ waiting s = 3 /\ sigs s = 0 /\ cnt is_insel (prods s) = 3.
 Proof.
   vm_compute. repeat split; try reflexivity. exists b_trace. vm_compute. reflexivity.
 Qed.
 
+(* a stale bell: the Signal rings, the waiter's context fires first and takes the pending signal with it
+   (waiting = 0 -> signals--); the bell stays rung with no signal pending; the next parked producer takes it,
+   finds signals = 0 and goes back to the select *)
+Example w_stale_bell :
+  let c := wc Mem true false in
+  let s := final c [LOffer 0 4; LOffer 1 1; LCancel 1; LRead; LDone 0 0; LSelCtx 1; LRelockCtx 1] in
+  tok s = true /\ sigs s = 0 /\ waiting s = 0 /\ pget 1%nat (prods s) = Some (PRet RCtx) /\
+  let s' := final c [LOffer 0 4; LOffer 1 1; LCancel 1; LRead; LDone 0 0; LSelCtx 1; LRelockCtx 1;
+                     LOffer 2 4; LOffer 3 1; LSelTok 3] in
+  option_map snd (step c s' (LRelockTok 3)) = Some c_blocked /\ tok s' = false /\ sigs s' = 0 /\ waiting s' = 1.
+Proof. vm_compute. repeat split; reflexivity. Qed.
+
 (* released_when_space / progress_while_stuck: a state satisfying their hypotheses with a parked producer *)
 Example w_released_hyp :
   let c := wc Mem true false in let s := final c [LOffer 0 4; LOffer 1 2; LRead] in
-  reachable c s /\ stopped s = false /\ lock s = Free /\ stuck s /\ mu s = 11 /\
+  reachable c s /\ stopped s = false /\ stuck s /\ 0 < mu s /\
   pget 1%nat (prods s) = Some (PInSelect 2).
 Proof.
   split; [exists [LOffer 0 4; LOffer 1 2; LRead]; split; [repeat constructor; simpl; intros; discriminate|vm_compute; reflexivity]|].
@@ -128,7 +146,7 @@ Example w_last_item_corrupt :
 Proof. vm_compute. repeat split; reflexivity. Qed.
 
 (* ---- round 5 ---------------------------------------------------------------------------------------------------- *)
-(* hypotheses of accepted_handed_and_finished_at_quiescence / no_lost_wakeup_iff are satisfiable: q_quiescent above.
+(* hypotheses of accepted_handed_and_finished_at_quiescence / no_stuck_at_quiescence are satisfiable: q_quiescent above.
    The persistent queue does not check the sign of a size (the in-memory queue does): outside wf_label an Offer of
    size -1 drives the reported size below zero — why "never negative" needs the Sizer contract (sizes >= 0) *)
 Example pq_negative_size_witness :
@@ -139,7 +157,7 @@ Proof.
   intros H. simpl in H. specialize (H eq_refl). lia.
 Qed.
 
-(* model_passes_checker_BZH is not vacuous: a run with refusals, a blocked producer, hand-offs and completions is
+(* model_passes_checker_BZH / model_passes_checker are not vacuous: a run with refusals, a blocked producer, hand-offs and completions is
    well-formed in the harness's coding, its observed case has 17 labels, and the executable checker accepts it *)
 Example w_link_nonvacuous :
   let c := wc Mem true true in
